@@ -366,7 +366,9 @@ def _run(cx, out):
     # expressions spliced into generated code keep their meaning (W17.4)
     if not getattr(cx, '_seed_loop_done', False):
         from . import shared
-        shared.premises(cx, out, {'c17': {'W17.4', 'W17.5'}})
+        # ... and a derived decoder reads its fields one after another from one input: the provided inputs that keep a
+        # position of their own hand each field the bytes that follow the previous one (C08 R08.4)
+        shared.premises(cx, out, {'c17': {'W17.4', 'W17.5'}, 'c08': {'R08.4'}})
         cx._seed_loop_done = True
     from . import positive
     positive.check(cx, out, 'C05')
